@@ -250,7 +250,14 @@ def exact_laws(rep, fns, c, what):
             rnd = random.Random(7)
             step = max(1, span // 97)
             grid = list(range(c.lo, c.hi + 1, step)) + [c.hi, c.hi - 1, c.lo + 1]
-            pairs = itertools.chain(((a, b) for a in grid for b in grid if a < b),
+            # products that are exact multiples of the maximum are where a double-rounded quotient lands on either side of an integer:
+            # max = 2^n - 1 = (2^(n/2) + 1)(2^(n/2) - 1), so a multiple of one factor times a multiple of the other is such a product
+            nb = (c.hi - c.lo).bit_length()
+            structured = []
+            if nb % 2 == 0 and (1 << nb) - 1 == c.hi - c.lo:
+                f1, f2 = (1 << (nb // 2)) + 1, (1 << (nb // 2)) - 1
+                structured = [(c.lo + i * f1, c.lo + j * f2) for i in range(1, 40) for j in range(1, 200) if i * f1 <= c.hi - c.lo and j * f2 <= c.hi - c.lo]
+            pairs = itertools.chain(structured, ((a, b) for a in grid for b in grid if a < b),
                                     ((rnd.randint(c.lo, c.hi), rnd.randint(c.lo, c.hi)) for _ in range(20000)))
         wit = None
         for a, b in pairs:
